@@ -45,7 +45,7 @@ META = dict(
     ],
     outside="regions/grids larger than listed; full 3x3 tensor materials in EnergyDetector; EnergyDetector.as_slices; mode / diffractive / "
             "field-projection detectors; the co-location interpolation in front of update (C15); on/off gating (C14); float round-off and "
-            "non-dyadic grids (weights then differ from the exact ones by round-off)",
+            "non-dyadic grids except for the linear Field/Phasor reductions (one tolerance-mode case: weights there differ from the exact ones by round-off)",
     bounds=dict(quick=dict(domain=[(4, 3, 3)], regions="one box per family", grids=["uniform", "nonuniform(seed)"], t=[1]),
                 thorough=dict(domain=[(4, 3, 3), (5, 4, 3)], regions="three boxes per family", grids=["uniform", "nonuniform(2 seeds)"], t=[0, 1, 3])),
     timeout_ms=dict(quick=60000, thorough=300000),
@@ -107,8 +107,8 @@ def axis_widths(widths, shape, a, spacing=SP):
     return [Fraction(float(x)) * Fraction(float(spacing)) for x in w]
 
 
-def vol_weights(widths, shape, lo, rs):
-    ax = [axis_widths(widths, shape, a)[lo[a]:lo[a] + rs[a]] for a in range(3)]
+def vol_weights(widths, shape, lo, rs, spacing=SP):
+    ax = [axis_widths(widths, shape, a, spacing)[lo[a]:lo[a] + rs[a]] for a in range(3)]
     out = np.empty(tuple(rs), dtype=object)
     for i, j, k in np.ndindex(*rs):
         out[i, j, k] = ax[0][i] * ax[1][j] * ax[2][k]
@@ -224,8 +224,13 @@ def drive(c, tag, real, syms, pairs_fn, assume, twin, rng, conc_inputs=None):
             return err > 1e-9 * scale and err > 0.0, dict(obligation=nm, err=err, scale=scale, code=l, oracle=r, inputs=ci)
         return replay
 
+    bad = set()
     for i, (nm, key, l, r) in enumerate(pairs):
-        prove_entries(c, f"{tag}: {nm}", l, r, assume, mk_replay(i), key)
+        if key in bad:  # one confirmed witness per violation class and drive is enough
+            c.notes.append(f"{tag}: {nm}: not examined (class {key} already violated in this drive)")
+            continue
+        if not prove_entries(c, f"{tag}: {nm}", l, r, assume, mk_replay(i), key):
+            bad.add(key)
     # vacuity twin: a designated output can be non-zero under the assumptions
     tw = twin(out, list(syms))
     tw = [v for v in jx.lift(tw).reshape(-1) if sc.is_symbolic_scalar(v)]
@@ -282,6 +287,8 @@ def cases(tier, seed):
             for fam in FAMILIES:
                 out.append(dict(name=f"{fam}-{'x'.join(map(str, shape))}-r{ci}-{g}{gs}", family=fam, shape=list(shape), lo=list(lo), rs=list(rs),
                                 grid=g, gseed=gs, ts=ts if fam == "phasor" else ts[:1] if tier == "quick" else ts[1:2]))
+    # non-dyadic grid, tolerance mode (linear detectors only)
+    out.append(dict(name="fieldtol-4x3x3-nondyadic", family="fieldtol", shape=[4, 3, 3], lo=[1, 0, 1], rs=[2, 3, 2], grid="nondyadic", gseed=0, ts=[1]))
     # legal configurations that are suspected to fail at placement (DESIGN section 5)
     for g in ("uniform", "nonuniform"):
         out.append(dict(name=f"keepall-placement-{g}", family="keepall", shape=[4, 3, 3], lo=[1, 0, 1], rs=[2, 3, 2], grid=g, gseed=0, ts=[1]))
@@ -291,12 +298,12 @@ def cases(tier, seed):
 def run_case(c, case):
     c.functions.update(META["functions"])
     shape, lo, rs = tuple(case["shape"]), tuple(case["lo"]), tuple(case["rs"])
-    widths = None if case["grid"] == "uniform" else dyadic_widths(shape, c.seed + 17 * case["gseed"])
+    widths = None if case["grid"] != "nonuniform" else dyadic_widths(shape, c.seed + 17 * case["gseed"])
     c.bounds.update(shape=list(shape), region=[list(lo), list(rs)], grid=case["grid"])
     rng = np.random.default_rng(c.seed + 160)
     fam = case["family"]
     G = dict(shape=shape, lo=lo, rs=rs, widths=widths, ts=case["ts"], grid=case["grid"])
-    {"field": _field, "phasor": _phasor, "energy": _energy, "poynting": _poynting, "closed": _closed, "keepall": _keepall}[fam](c, G, rng)
+    {"field": _field, "phasor": _phasor, "energy": _energy, "poynting": _poynting, "closed": _closed, "keepall": _keepall, "fieldtol": _fieldtol}[fam](c, G, rng)
 
 
 def _t32(t):
@@ -336,6 +343,64 @@ def _field(c, G, rng):
             return p
 
         drive(c, f"field t{t}", real, [E, H], pairs, [], lambda out, ins: out["f0r"], rng, lambda r: [_signed(r, E.shape), _signed(r, H.shape)])
+
+
+def _fieldtol(c, G, rng):
+    """the same reduction on a *non-dyadic* grid (50 nm spacing, widths with 3 decimals): the placement's float weights differ from
+    the exact ones by round-off, so the claim is a tolerance query (fields boxed to [-1, 1]; linear, QF_LRA)."""
+    shape, lo, rs = G["shape"], G["lo"], G["rs"]
+    sp = 50e-9
+    r2 = np.random.default_rng(1700 + c.seed)
+    widths = [list(np.round(r2.uniform(0.6, 1.6, size=n), 3)) for n in shape]
+    from fdtdx.objects.detectors.phasor import PhasorDetector
+
+    dets = [(fdtdx.FieldDetector(name="fr", partial_grid_shape=rs, reduce_volume=True, dtype=jnp.float64), lo),
+            (fdtdx.FieldDetector(name="fs", partial_grid_shape=rs, reduce_volume=False, dtype=jnp.float64), lo),
+            (PhasorDetector(name="pr", partial_grid_shape=rs, reduce_volume=True, wave_characters=[fdtdx.WaveCharacter(wavelength=13 * sp)], dtype=jnp.complex128), lo),
+            (PhasorDetector(name="ps", partial_grid_shape=rs, reduce_volume=False, wave_characters=[fdtdx.WaveCharacter(wavelength=13 * sp)], dtype=jnp.complex128), lo)]
+    S = mini_scene(shape, widths, dets, spacing=sp)
+    D, ST = S["det"], S["states"]
+    vol = vol_weights(widths, shape, lo, rs, spacing=sp)
+    vtot = o_total(vol)
+    E, H = jx.symarr("E", (3, *rs)), jx.symarr("H", (3, *rs))
+    box = [z3.And(v >= -1, v <= 1) for v in list(E.reshape(-1)) + list(H.reshape(-1))]
+    t = G["ts"][0]
+    tol = 1e-9
+
+    def real(E, H):
+        o = {n: D[n].update(_t32(t), E, H, ST[n], None, None) for n in D}
+        return {"fr": o["fr"]["fields"][t], "fs": o["fs"]["fields"][t], "pr": o["pr"]["phasor"][0], "ps": o["ps"]["phasor"][0]}
+
+    def pairs(out, ins):
+        return [("reduced field == volume-weighted mean of spatial record (tolerance 1e-9)", "field:reduce:nondyadic", jx.lift(out["fr"]),
+                 o_div(o_ssum(o_mul(jx.lift(out["fs"]), vol[None])), vtot)),
+                ("reduced phasor == volume-weighted mean of spatial phasor (tolerance 1e-9)", "phasor:reduce:nondyadic", jx.lift(out["pr"]),
+                 o_div(o_ssum(o_mul(jx.lift(out["ps"]), vol[None, None])), vtot))]
+
+    t0 = time.time()
+    out, tr = jx.call(real, E, H)
+    c.interp_s += time.time() - t0
+    c.symvars += E.size + H.size
+    conc = [_signed(rng, E.shape) / 1.5, _signed(rng, H.shape) / 1.5]
+    want = _tree_np(real(*[jnp.asarray(x) for x in conc]))
+    got = tr(*[jx.fracarr(x) for x in conc])
+    for g, w in zip(jax.tree_util.tree_leaves(got, is_leaf=jx.is_obj), jax.tree_util.tree_leaves(want)):
+        c.validate(jx.to_numeric(g), np.asarray(w), "fieldtol")
+    P = pairs(out, [E, H])
+
+    def mk_replay(i):
+        def replay(m):
+            ci = [model_array(m, E), model_array(m, H)]
+            o = _tree_np(real(*[jnp.asarray(x) for x in ci]))
+            nm, key, l, r = pairs(jax.tree_util.tree_map(jx.lift, o), [jx.lift(x) for x in ci])[i]
+            l, r = np.asarray(jx.to_numeric(jx.lift(l))), np.asarray(jx.to_numeric(jx.lift(r)))
+            err = float(np.max(np.abs(l - r)))
+            return err > 0.5 * tol, dict(obligation=nm, err=err, tol=tol, code=l, oracle=r, inputs=ci)
+        return replay
+
+    for i, (nm, key, l, r) in enumerate(P):
+        prove_entries(c, f"fieldtol t{t}: {nm}", l, r, box, mk_replay(i), key, tol=tol)
+    c.witness("fieldtol: twin (reduced record can be non-zero)", sc.ne(jx.lift(out["fr"]).reshape(-1)[0], 0), box)
 
 
 # --------------------------------------------------------------------------- phasor
@@ -544,7 +609,8 @@ def _keepall(c, G, rng):
 
             def pairs(out, ins):
                 one, al = jx.lift(out["one"]), jx.lift(out["all"])
-                return [(f"plane{a} red={red}: single component == component {a} of all-component record", "poynting:single-vs-all", one.reshape(al[a].shape), al[a])]
+                tgt = al[a] if isinstance(al[a], np.ndarray) else jx.obj0(al[a])
+                return [(f"plane{a} red={red}: single component == component {a} of all-component record", "poynting:single-vs-all", one.reshape(tgt.shape), tgt)]
 
             drive(c, f"keepall plane{a} red{int(red)}", real, [E, H], pairs, [], lambda out, ins: out["one"], rng, lambda r: [_signed(r, E.shape), _signed(r, H.shape)])
     # frequency-domain sibling (compute_poynting_flux on a symbolic accumulated phasor state)
